@@ -1,9 +1,12 @@
 #!/bin/bash
 # dev helper: (re)build an instrumented scratch copy at $1 (default /var/tmp/vs-dev)
+#   PATCH=file  apply a patch first;  PRISTINE=1 no instrumentation;  RACE=-race
+#   CLEAN=1     start from /repo's HEAD (git archive) instead of its working tree
 set -e
 export GOFLAGS=-mod=mod GOPROXY=off GOSUMDB=off GOTOOLCHAIN=local
 S=${1:-/var/tmp/vs-dev}
-rm -rf $S && mkdir -p $S && rsync -a --exclude .git /repo/ $S/
+rm -rf $S && mkdir -p $S
+if [ -n "$CLEAN" ]; then git -C /repo archive HEAD | tar -x -C $S; else rsync -a --exclude .git /repo/ $S/; fi
 [ -n "$PATCH" ] && (cd $S && patch -p1 -s < $PATCH)
 mkdir -p $S/verifsim && cp /verif/simrt/verifsim/*.go $S/verifsim/
 sed -i 's/^go 1.22$/go 1.23/' $S/go.mod
